@@ -251,16 +251,11 @@ class CipherScenario(Scenario):
                 rec.fail("C08/xor", "C08/xor-not-plaintext-xor-key/%s" % via, "XOR ciphertext differs from plaintext xor key repeated")
             rec.probe("xor-checked" + (":longer-than-key" if len(pt) > 32 else ""))
         else:
-            ivs = [d for d in draws if d[2] == 16]
-            warm_aes = sum(1 for j in range(op.get("warm", 0) if via == "keyfile" else 0) if (method if j % 2 == 0 else "best") != "xor")
-            if len(ivs) == 1 + warm_aes:
-                ivs = ivs[-1:]
-            if len(ivs) != 1:
-                rec.fail("C08/iv", "C08/iv-not-one-fresh-draw/%s/%d" % (via, min(len(ivs), 2)),
-                         "an AES encryption made %d 16-byte entropy draws (expected exactly one fresh IV)" % len(ivs))
-            iv = ivs[0][3]
-            if ct[:16] != iv:
-                rec.fail("C08/iv", "C08/iv-is-not-the-draw/%s" % via, "the first 16 bytes of the value are not the entropy drawn for this call")
+            iv = ct[:16]
+            earlier = [x["ct"][:16] for x in st.vault if x["method"] == "aes"]
+            if not drawn_during(iv, draws) or iv in earlier:
+                rec.fail("C08/iv", "C08/iv-not-one-fresh-draw/%s/%d" % (via, 0 if not drawn_during(iv, draws) else 2),
+                         "the first 16 bytes of the AES value are not fresh random bytes drawn during this encryption")
             if ct[16:] != refcrypto.aes_cbc_encrypt(key, iv, pt):
                 rec.fail("C08/aes", "C08/not-standard-aes-256-cbc-pkcs7/%s" % via,
                          "value[16:] differs from reference AES-256-CBC/PKCS7 of the plaintext under the key file's key and that IV")
@@ -434,6 +429,12 @@ SECRETS = ["pw!one", "", "ünï!cöde", "x!" * 40, "a", "pass word!", "Pw!One", 
            " lead!pw", "trail!pw ", "\tt!b\n", "  ", "long!" * 300, "x" * 1024 + "!tail", "y!" * 1024]
 
 
+def drawn_during(value, draws):
+    """Is `value` a contiguous run of bytes of one entropy draw made during the call?  ("fresh random": how many bytes the
+    library asks for, and in how many requests, is its own business)"""
+    return bool(value) and any(value in d[3] for d in draws)
+
+
 def neighbours(p):
     b = p if isinstance(p, bytes) else p.encode()
     out = [b[:-1], b + b"\x00", b + b" ", b" " + b, b.swapcase(), b"", b[1:], b + b[-1:], b[::-1], b.strip(), b.lstrip(), b.rstrip()]
@@ -554,7 +555,7 @@ class ChallengeScenario(Scenario):
             self.check_digest(st, rec, f, b, f["dv"].encode(), "default-second-config")
             if b.salt == a.salt:
                 rec.fail("C09/salt", "C09/salt-reused/default-across-configurations", "two configurations of one schema share the salt of a plaintext default")
-            if not any(d[3] == b.salt for d in draws2):
+            if not drawn_during(b.salt, draws2):
                 rec.fail("C09/salt", "C09/salt-not-a-fresh-draw/default-second-config", "the second configuration's default salt was not drawn during its construction")
             rec.probe("second-config-default-salt-fresh")
         # defaults
@@ -564,7 +565,7 @@ class ChallengeScenario(Scenario):
             rec.check()
             if f["default"] == "plain":
                 self.check_digest(st, rec, f, v, f["dv"].encode(), "default")
-                if not any(d[3] == v.salt for d in draws):
+                if not drawn_during(v.salt, draws):
                     rec.fail("C09/salt", "C09/salt-not-a-fresh-draw/default", "the salt of a plaintext default is not an entropy draw of this construction")
                 st.known[f["key"]] = [(f["dv"].encode(), v.salt, v.digest)]
             elif f["default"] == "digest":
@@ -642,10 +643,9 @@ class ChallengeScenario(Scenario):
             self.check_digest(st, rec, f, v, pt, "assign")
             draws = [d for d in w.draws[d0:]]
             size = refcrypto.DIGEST_SIZE[f["alg"]]
-            mine = [d for d in draws if d[2] == size]
-            if len(mine) != 1 or mine[0][3] != v.salt:
+            if len(v.salt) != size or not drawn_during(v.salt, draws):
                 rec.fail("C09/salt", "C09/salt-not-a-fresh-draw/assign",
-                         "assignment made %d entropy draws of %d bytes; the stored salt %s the draw" % (len(mine), size, "is not" if mine else "has no"))
+                         "the stored salt (%d bytes, digest size %d) is not made of random bytes drawn during the assignment" % (len(v.salt), size))
             prev = st.known.get(f["key"], [])
             if any(s == v.salt for _, s, _ in prev):
                 rec.fail("C09/salt", "C09/salt-reused", "two assignments share a salt")
